@@ -254,7 +254,17 @@ def run_case(asm, acc, case):
             if items is None:
                 acc['ctr']['drift_probe_failed'] += 1
                 continue
-        ex = progcheck.examine(asm, items, compress, seed='%s-%d' % (case['kind'], case['idx']), nregs=case.get('nregs', 5), lines=lines)
+        preseed = extern = None
+        if case['kind'] == 'named' and case['idx'] % 2:
+            # the address comes in through the caller's label table instead (an external symbol: `labels={'main': 0x20000000}`)
+            extern = {it['name']: it['value'] for it in items if it['k'] == 'const'}
+            items = [it for it in items if it['k'] != 'const']
+            preseed = {'labels': dict(extern)}
+            acc['ctr']['programs_with_an_external_symbol'] += 1
+        ex = progcheck.examine(asm, items, compress, seed='%s-%d' % (case['kind'], case['idx']), nregs=case.get('nregs', 5), lines=lines, preseed=preseed, extern=extern)
+        if extern and ex.ok and any(ex.labels_reported.get(k) != v for k, v in extern.items()):
+            core.add_viol(acc, 'program %r (compress=%s): the caller\'s external symbol %r came back as %r' % (
+                '; '.join(ex.lines)[:160], compress, extern, {k: ex.labels_reported.get(k) for k in extern}), rcase, {})
         if not ex.ok:
             acc['ctr']['refused'] += 1
             acc['ctr']['refused:' + ex.exc['msg'][:40]] += 1
